@@ -291,5 +291,17 @@ theorem nodup_pair_length {l : List PyId} {a b : PyId} (hl : l.Nodup) (hs : same
   have : l.Perm [a, b] := (List.perm_ext_iff_of_nodup hl (by simp [hab])).mpr ((sameSet_iff _ _).mp hs)
   simpa using this.length_eq
 
+/-- maximal simplices inherit duplicate-free member lists -/
+theorem maxSets_nodup (h : Net) (mo : Option Int) (hnd : ∀ p ∈ h.edges, p.2.Nodup) :
+    ∀ t ∈ maxSets h mo, t.Nodup := by
+  intro t ht
+  unfold maxSets maximalEdges at ht
+  obtain ⟨p, hp, rfl⟩ := List.mem_map.mp ht
+  have hp' := (List.mem_filter.mp hp).1
+  refine hnd p ?_
+  unfold truncate at hp'
+  cases hm : truthy mo with
+  | none => simpa [hm] using hp'
+  | some m => rw [hm] at hp'; exact (List.mem_filter.mp hp').1
 
 end Xgi.C20
